@@ -177,6 +177,44 @@ def inversion_clause(chk, F, roles):
     chk.floor('start_states', 2, n)
 
 
+def shorthand_clause(chk, F, roles):
+    """test_util::control_change_14_bit: panics exactly for out-of-range arguments, otherwise the message of its arguments"""
+    cfg = F.cfg
+    fk = 'test_util::control_change_14_bit'
+    key = '%s/shorthand/%s' % (PID, cfg)
+
+    def ev():
+        if fk not in F.fns:
+            return chk.ob(key, 'constructor outcome summary', 'unproven', why='%s not found' % fk)
+        I = Interp(F)
+        st = I.new_state()
+        args = entry_args(I, st, F.fns[fk], [])
+        outs = I.run(fk, args, [], st)
+        want = [VS(0, 15), VS(0, 31), VS(0, 16383)]
+        acc = [VS.of([]), VS.of([]), VS.of([])]
+        status, why = 'proved', ''
+        for o in outs:
+            vs = [vs_of(a.term, o.st.cons) for a in args]
+            if o.kind == 'return':
+                acc = [x.join(v) for x, v in zip(acc, vs)]
+                for role, a in zip(('channel', 'msb_controller_number', 'value'), args):
+                    g = H.scalar_of(A.get_path(o.value, roles[(CC14, role)]))
+                    if g is None or g.term != a.term:
+                        status, why = 'refuted', 'field %s is %r' % (role, g)
+                if any(not v.subset(w) for v, w in zip(vs, want)):
+                    status, why = 'refuted', 'returns for out-of-range arguments %r' % (vs,)
+            elif o.kind == 'panic':
+                if all(not v.meet(w).empty() for v, w in zip(vs, want)):
+                    status, why = 'refuted', 'panics although every argument can be in range: %r' % (vs,)
+            else:
+                status, why = 'unproven', o.kind
+        if status == 'proved' and acc != want:
+            status, why = 'refuted', 'accepted arguments %r, expected %r' % (acc, want)
+        chk.ob(key, 'constructor outcome summary', status, subject=fn_subject(F, fk),
+               expected='message of the arguments for channel 0..15, MSB controller 0..31, value 0..16383; panic otherwise', found=sorted(set(o.kind for o in outs)), why=why)
+    guarded(chk, key, 'constructor outcome summary', ev)
+
+
 def run(tier, cmd):
     chk = Check(PID, tier, 'other',
                 'outcome summary of new (panic set), accessor terms, encoder output for an abstract factory by bit provenance, and '
@@ -197,6 +235,7 @@ def run(tier, cmd):
             continue
         new_clause(chk, F, roles)
         encoder_clause(chk, F, roles)
+        shorthand_clause(chk, F, roles)
         guarded(chk, '%s/inversion/%s' % (PID, cfg), 'encoder/scanner composition', lambda F=F: inversion_clause(chk, F, roles))
         guarded(chk, '%s/invariant/%s' % (PID, cfg), 'struct invariant at construction site',
                 lambda F=F: c09.invariant_clause(chk, F, CC14, 'ControlChange14BitMessage'))
